@@ -1619,6 +1619,12 @@ impl DistributedTxCoordinator {
         // Mark all locks released
         let _ = self.log_wal_entry(&TxWalEntry::AllLocksReleased { tx_id });
 
+        // Drop whatever the transaction still holds or waits for: locks granted under a
+        // handle that never made it into the recorded votes, and wait-for edges of a
+        // transaction that was refused and therefore holds nothing.
+        self.lock_manager.release(tx_id);
+        self.wait_graph.remove_transaction(tx_id);
+
         tx.phase = TxPhase::Committed;
         self.stats.committed.fetch_add(1, Ordering::Relaxed);
 
@@ -1657,6 +1663,12 @@ impl DistributedTxCoordinator {
             }
         }
 
+        // Drop whatever the transaction still holds or waits for: locks granted under a
+        // handle that never made it into the recorded votes, and wait-for edges of a
+        // transaction that was refused and therefore holds nothing.
+        self.lock_manager.release(tx_id);
+        self.wait_graph.remove_transaction(tx_id);
+
         tx.phase = TxPhase::Committed;
         self.stats.committed.fetch_add(1, Ordering::Relaxed);
 
@@ -1691,6 +1703,12 @@ impl DistributedTxCoordinator {
                     .release_by_handle_with_wait_cleanup(*lock_handle, &self.wait_graph);
             }
         }
+
+        // Drop whatever the transaction still holds or waits for: locks granted under a
+        // handle that never made it into the recorded votes, and wait-for edges of a
+        // transaction that was refused and therefore holds nothing.
+        self.lock_manager.release(tx_id);
+        self.wait_graph.remove_transaction(tx_id);
 
         tx.phase = TxPhase::Aborted;
         self.stats.aborted.fetch_add(1, Ordering::Relaxed);
@@ -1748,6 +1766,12 @@ impl DistributedTxCoordinator {
             }
         }
 
+        // Drop whatever the transaction still holds or waits for: locks granted under a
+        // handle that never made it into the recorded votes, and wait-for edges of a
+        // transaction that was refused and therefore holds nothing.
+        self.lock_manager.release(tx_id);
+        self.wait_graph.remove_transaction(tx_id);
+
         tx.phase = TxPhase::Aborted;
         self.stats.aborted.fetch_add(1, Ordering::Relaxed);
 
@@ -1798,6 +1822,9 @@ impl DistributedTxCoordinator {
                             .release_by_handle_with_wait_cleanup(*lock_handle, &self.wait_graph);
                     }
                 }
+                // Also drop locks under unrecorded handles and wait-for edges.
+                self.lock_manager.release(*tx_id);
+                self.wait_graph.remove_transaction(*tx_id);
                 self.stats.timed_out.fetch_add(1, Ordering::Relaxed);
             }
         }
@@ -2186,6 +2213,8 @@ impl DistributedTxCoordinator {
                             .release_by_handle_with_wait_cleanup(*lock_handle, &self.wait_graph);
                     }
                 }
+                self.lock_manager.release(tx_id);
+                self.wait_graph.remove_transaction(tx_id);
                 tx.phase = TxPhase::Committed;
                 self.stats.committed.fetch_add(1, Ordering::Relaxed);
                 pending.remove(&tx_id);
@@ -2203,6 +2232,8 @@ impl DistributedTxCoordinator {
                         .release_by_handle_with_wait_cleanup(*lock_handle, &self.wait_graph);
                 }
             }
+            self.lock_manager.release(tx_id);
+            self.wait_graph.remove_transaction(tx_id);
             tx.phase = TxPhase::Aborted;
             self.stats.aborted.fetch_add(1, Ordering::Relaxed);
             pending.remove(&tx_id);
